@@ -20,7 +20,8 @@
      VInvS s         VInv for both parties of the two-party system. *)
 From Coq Require Import List ZArith NArith Bool Arith.
 From LV Require Import Channel.Model Channel.Resync Channel.Proofs Channel.View Channel.ViewProofs
-     Channel.ViewRefine Channel.ViewSim.
+     Channel.ViewRefine Channel.ViewSim Channel.ViewRestore Channel.ViewRestoreInv
+     Channel.Discipline Channel.ViewResync.
 Import ListNotations.
 Local Open Scope N_scope.
 
@@ -95,17 +96,138 @@ Theorem C01view_compacted_below_both_tails : forall p x k e0,
   e_log e0 < ix p (v_ltail x) /\ e_log e0 < ix p k.
 Proof. exact compactable_below_tails. Qed.
 
-(* (d), PARTIAL.  Full statement (NOT proved, tied by Channel/ViewExec.v on every reload of
-   every trace instead): for every reachable x, every entry of v_restore p x whose LogIndex is
-   below a cut of a persisted commitment has, on that chain, a non-zero height <= the height
-   the uninterrupted machine had (and VInv p (v_restore p x) holds).  Proved: a restart is a
-   function of the channel DB alone and is idempotent. *)
-Theorem C01view_restore_partial : forall p x,
+(* (d0) a restart is a function of the channel DB alone and is idempotent. *)
+Theorem C01view_restore_function : forall p x,
   v_restore p (v_restore p x) = v_restore p x /\
   forall y, v_ltail x = v_ltail y -> v_rtail x = v_rtail y -> v_rtip x = v_rtip y ->
             d_diff x = d_diff y -> d_unsigned_acked x = d_unsigned_acked y ->
             d_remote_unsigned x = d_remote_unsigned y -> v_restore p x = v_restore p y.
 Proof. exact v_restore_partial. Qed.
+
+(* (d) restore reproduces the heights.  NewLightningChannel does NOT reproduce the pre-crash
+   numbers (channel.go: it stamps the height of the persisted commitment "even though the real
+   height may be lower"); what it reproduces is the MEANING of the heights, and that is the
+   statement: if y stands for the cut-level party x (CorrX, the relation of C01view_refinement)
+   and the persisted data are what the machine writes (PInv: the HTLC lists of the persisted
+   commitments are the live Adds of their cuts, the three persisted update lists are the log
+   segments between the cuts), then the party rebuilt from disk stands for Resync.restore p x,
+   again in the full sense of CorrX: the same commitments, logs holding exactly the entries the
+   cut-level logs call present, every height in the range VInv prescribes for its LogIndex
+   (below the tail's cut: 0 < h <= height(tail); between tail and tip: height(tip); above: unset),
+   counters, HtlcIndex counters, modified sets and fee entries as after an uninterrupted run, and
+   the eviction frontiers at the cuts of the two tails. *)
+Theorem C01view_restore : forall c p x y Fo Fp,
+  CorrX c p x y Fo Fp -> PInv p x y ->
+  CorrX c p (restore p x) (v_restore p y) (n_of p (lTail x)) (n_of (negb p) (rTail x)).
+Proof. exact restore_corrx. Qed.
+
+(* ... PInv (with the shapes of log entries, PInvS) holds in every reachable state: it is
+   established by the funding state and kept by every operation of the incremental machine ... *)
+Theorem C01view_persisted_reachable : forall c s0 v0 vops,
+  init_sys c = Some s0 -> vinit c = Some v0 ->
+  let (s, v) := run_along c s0 v0 vops in forall p, PInvS p (get s p) (vget v p).
+Proof. exact pinv_reachable. Qed.
+
+(* ... and is kept by a restart, so (d) holds UNCONDITIONALLY for a crash in any reachable state,
+   and the rebuilt party again satisfies the hypotheses of (d). *)
+Theorem C01view_restore_reachable : forall c s0 v0 vops,
+  init_sys c = Some s0 -> vinit c = Some v0 ->
+  let (s, v) := run_along c s0 v0 vops in
+  forall p,
+    CorrX c p (restore p (get s p)) (v_restore p (vget v p))
+          (n_of p (lTail (get s p))) (n_of (negb p) (rTail (get s p))) /\
+    PInvS p (restore p (get s p)) (v_restore p (vget v p)).
+Proof. exact restore_reachable. Qed.
+
+(* (d) spelled out without CorrX: after a crash in ANY reachable state the rebuilt party
+   satisfies the height invariant VInv, holds exactly the persisted commitments (the unrevoked
+   local tip is gone), and its log counters are the cuts Resync.restore truncates the logs to. *)
+Theorem C01view_restore_heights : forall c s0 v0 vops,
+  init_sys c = Some s0 -> vinit c = Some v0 ->
+  let (s, v) := run_along c s0 v0 vops in
+  forall p,
+    let x := get s p in let y' := v_restore p (vget v p) in
+    VInv p y' /\
+    commits_view y' = (lTail x, None, rTail x, rTip x) /\
+    l_idx (vl y') = N.of_nat (n_of p (tip_of (rTail x) (rTip x))) /\
+    l_idx (vr y') = N.of_nat (n_of (negb p) (lTail x)).
+Proof. exact restore_reachable_vinv. Qed.
+
+(* ---------- reconnects: the incremental machine refines Resync.v (C02 / C03) ---------- *)
+(* ProcessChanSyncMsg.  If y stands for x (CorrX), the persisted data are what the machine
+   writes (PInvS) and the own log / the persisted CommitDiff are in LogIndex order above the
+   remote tail's cut (OrdInv), then whenever Resync.process_sync succeeds, v_process_sync
+   returns the SAME messages in the same order (retransmitted updates read back from
+   CommitDiff.LogUpdates, the stored commit_sig, revoke_and_ack, a fresh signature) and the same
+   signed-now flag, and the party it leaves satisfies the three hypotheses again. *)
+Theorem C01view_process_sync : forall c p x y Fo Fp,
+  CorrX c p x y Fo Fp -> PInvS p x y -> OrdInv p y ->
+  forall f next rtail x1 out sg,
+  process_sync c p x f next rtail = (SOk, x1, out, sg) ->
+  exists y1, v_process_sync c p y f next rtail = (SOk, y1, out, sg) /\
+    CorrX c p x1 y1 Fo Fp /\ PInvS p x1 y1 /\ OrdInv p y1 /\ own x1 = own x /\
+    (forall u, In (MUpd u) out -> In u (own x)).
+Proof. exact psync_full. Qed.
+
+(* one reconnect (XCut ka kb: ka / kb messages still reach A / B, both processes restart from
+   disk, exchange channel_reestablish, retransmit): under the link discipline of C03, if the
+   cut-level reconnect succeeds so does the incremental one, and the simulation relation XSim
+   (= Sim of C01view_sim_step + PInvS + OrdInv + ResyncProofs.XInv + equal LastWasRevoke flags)
+   is kept. *)
+Theorem C01view_reconnect_step : forall c s v ka kb,
+  XSim c s v -> disciplined c s (XCut ka kb) = true -> fst (xstep c s (XCut ka kb)) = Ok ->
+  fst (vxstep c v (VXCut ka kb)) = Ok /\
+  XSim c (snd (xstep c s (XCut ka kb))) (snd (vxstep c v (VXCut ka kb))).
+Proof. exact xcut_sim. Qed.
+
+(* THE REFINEMENT THEOREM WITH RECONNECTS.  For every schedule of sends (incl. malformed
+   fails), signs, revokes, deliveries AND reconnects that is disciplined and whose reconnects
+   succeed at cut level (xgood - the schedules of C02 / C03's dreachable_ok), with
+   (s, v) := xrun_along: s is Resync.xrun of the erased schedule, and the incremental machine
+   holds exactly s's eight commitments, queues, LastWasRevoke flags and log counters, and
+   satisfies the height invariant. *)
+Theorem C01view_reconnect_refinement : forall c s0 v0 ops,
+  xinit c = Some s0 -> vinit c = Some v0 -> xgood c s0 (map xerase ops) = true ->
+  let (s, v) := xrun_along c s0 v0 ops in
+  s = xrun c s0 (map xerase ops) /\
+  (forall p, commits_view (vget v p) =
+             (lTail (get (xs s) p), lTip (get (xs s) p), rTail (get (xs s) p), rTip (get (xs s) p))) /\
+  vqAB v = qAB (xs s) /\ vqBA v = qBA (xs s) /\
+  vlwrA v = lwrA s /\ vlwrB v = lwrB s /\
+  (forall p, l_idx (vl (vget v p)) = N.of_nat (length (own (get (xs s) p))) /\
+             l_idx (vr (vget v p)) = N.of_nat (length (peer (get (xs s) p)))) /\
+  (forall p, VInv p (vget v p)).
+Proof. exact xview_refines. Qed.
+
+(* ... every reconnect the cut-level model completes is completed (Ok) by the incremental
+   machine ... *)
+Theorem C01view_reconnect_accepts : forall c s0 v0 ops ka kb,
+  xinit c = Some s0 -> vinit c = Some v0 -> xgood c s0 (map xerase ops ++ [XCut ka kb]) = true ->
+  fst (vxstep c (snd (xrun_along c s0 v0 ops)) (VXCut ka kb)) = Ok.
+Proof. exact xview_accepts. Qed.
+
+(* ... and (d) holds for a crash in any state reachable WITH reconnects. *)
+Theorem C01view_restore_reachable_x : forall c s0 v0 ops,
+  xinit c = Some s0 -> vinit c = Some v0 -> xgood c s0 (map xerase ops) = true ->
+  let (s, v) := xrun_along c s0 v0 ops in
+  forall p,
+    CorrX c p (restore p (get (xs s) p)) (v_restore p (vget v p))
+          (n_of p (lTail (get (xs s) p))) (n_of (negb p) (rTail (get (xs s) p))) /\
+    PInvS p (restore p (get (xs s) p)) (v_restore p (vget v p)).
+Proof. exact xrestore_reachable. Qed.
+
+(* The entry shapes the model-free predicate heights_sane tests on every dump, for every state
+   reachable with reconnects: a fee update carries add = remove heights on each chain (so VInv,
+   which speaks about its add heights, covers its remove heights too), an Add carries no remove
+   heights, a settle / fail no add heights. *)
+Theorem C01view_entry_shapes : forall c s0 v0 ops,
+  xinit c = Some s0 -> vinit c = Some v0 -> xgood c s0 (map xerase ops) = true ->
+  forall p e, In e (l_list (vl (vget (snd (xrun_along c s0 v0 ops)) p))) \/
+              In e (l_list (vr (vget (snd (xrun_along c s0 v0 ops)) p))) ->
+    (is_fee e = true -> e_addL e = e_rmL e /\ e_addR e = e_rmR e) /\
+    (is_add e = true -> e_rmL e = 0 /\ e_rmR e = 0) /\
+    (is_remove e = true -> e_addL e = 0 /\ e_addR e = 0).
+Proof. exact entry_shapes_reachable. Qed.
 
 (* The commitment CONSTRUCTION of the incremental machine (finish_commit, used by
    fetchCommitmentView) is literally commit_of's once the gross balances, the fee rate and the
@@ -280,7 +402,17 @@ Print Assumptions C01view_height_set_iff_included.
 Print Assumptions C01view_balance_once.
 Print Assumptions C01view_compaction_removes_only_locked.
 Print Assumptions C01view_compacted_below_both_tails.
-Print Assumptions C01view_restore_partial.
+Print Assumptions C01view_restore_function.
+Print Assumptions C01view_restore.
+Print Assumptions C01view_persisted_reachable.
+Print Assumptions C01view_restore_reachable.
+Print Assumptions C01view_restore_heights.
+Print Assumptions C01view_process_sync.
+Print Assumptions C01view_reconnect_step.
+Print Assumptions C01view_reconnect_refinement.
+Print Assumptions C01view_reconnect_accepts.
+Print Assumptions C01view_restore_reachable_x.
+Print Assumptions C01view_entry_shapes.
 Print Assumptions C01view_commit_of_finish.
 Print Assumptions C01view_refinement.
 Print Assumptions C01view_refinement_accepts.
